@@ -358,6 +358,46 @@ var hubFundEdits = []hubEdit{
 		orig.Balances[0][1] = new(big.Int).Sub(orig.Balances[0][1], bal(1))
 		return orig
 	}},
+	{"index-map-in-the-state-swapped-and-debits-to-match", func(rng *rand.Rand, cur, orig *channel.State) *channel.State {
+		// the message announces the honest index map; the state carries another one and debits
+		// the parent consistently with that one (the hub pays the sender's share)
+		l := len(orig.Locked) - 1
+		if l < 0 || len(orig.Locked[l].IndexMap) != 2 {
+			return nil
+		}
+		changed := false
+		for ai := range orig.Balances {
+			d0 := new(big.Int).Sub(cur.Balances[ai][0], orig.Balances[ai][0])
+			d1 := new(big.Int).Sub(cur.Balances[ai][1], orig.Balances[ai][1])
+			if d0.Cmp(d1) != 0 && cur.Balances[ai][0].Cmp(d1) >= 0 && cur.Balances[ai][1].Cmp(d0) >= 0 {
+				orig.Balances[ai][0] = new(big.Int).Sub(cur.Balances[ai][0], d1)
+				orig.Balances[ai][1] = new(big.Int).Sub(cur.Balances[ai][1], d0)
+				changed = true
+			}
+		}
+		if !changed {
+			return nil
+		}
+		im := orig.Locked[l].IndexMap
+		orig.Locked[l].IndexMap = []channel.Index{im[1], im[0]}
+		return orig
+	}},
+	{"index-map-in-the-state-all-to-the-hub-and-debits-to-match", func(rng *rand.Rand, cur, orig *channel.State) *channel.State {
+		l := len(orig.Locked) - 1
+		if l < 0 || len(orig.Locked[l].IndexMap) != 2 {
+			return nil
+		}
+		for ai := range orig.Balances {
+			tot := orig.Locked[l].Bals[ai]
+			if cur.Balances[ai][1].Cmp(tot) < 0 {
+				return nil
+			}
+			orig.Balances[ai][0] = new(big.Int).Set(cur.Balances[ai][0])
+			orig.Balances[ai][1] = new(big.Int).Sub(cur.Balances[ai][1], tot)
+		}
+		orig.Locked[l].IndexMap = []channel.Index{1, 1}
+		return orig
+	}},
 	{"index-map-in-the-state-points-both-to-the-hub", func(rng *rand.Rand, cur, orig *channel.State) *channel.State {
 		l := len(orig.Locked) - 1
 		if l < 0 {
